@@ -551,7 +551,23 @@ def g2(proj, rep, modules=None):
                 aligned_lo = any(lo == f[1] for f in fields)
                 aligned_hi = any(hi == f[2] for f in fields)
                 if not (aligned_lo and aligned_hi):
-                    bad = ('und', f'data segment `{text[:40]}` spans [{lo}:{hi}], not aligned with the field boundaries')
+                    # not aligned symbolically: decide containment in the kept fields for concrete dimensions d = 2..8
+                    witness = None
+                    try:
+                        for dv in range(2, 9):
+                            l0, h0 = lo.eval({dsym: dv}), hi.eval({dsym: dv})
+                            inside = any(fl.eval({dsym: dv}) <= l0 and h0 <= fh.eval({dsym: dv}) for nm, fl, fh in fields if nm in keep)
+                            if h0 > l0 and not inside:
+                                witness = (dv, l0, h0)
+                                break
+                    except Exception:
+                        witness = None
+                    if witness is not None:
+                        dv, l0, h0 = witness
+                        bad = ('viol', f'data segment `{text[:40]}` spans columns [{lo}:{hi}]; for {dsym}={dv} that is [{l0}:{h0}], which is not inside the field(s) '
+                               f'{sorted(keep)} that `.{proj_kind}` reads: part of the parameters never reaches the result (rank-deficient chart)')
+                    else:
+                        bad = ('und', f'data segment `{text[:40]}` spans [{lo}:{hi}], not aligned with the field boundaries')
                     break
                 on = False
                 for name, flo, fhi in fields:
